@@ -142,6 +142,21 @@ def gather(tier, seed):
     for i in range(n):
         p = proggen.gen_program(rng, profs[i % len(profs)])
         cases.append(("gen", p.files[0][0], p.files[0][1], p.fs))
+    # the wide grammar of C08 (every mnemonic, every directive, faults): mostly about the conversion itself,
+    # incl. the programs both converters must refuse
+    import c08gen
+    m = 40 if tier == "quick" else 600
+    for stream in ("valid", "wide", "fault"):
+        for i in range(m):
+            g = c08gen.Gen(random.Random(f"PA:{seed}:{stream}:{i}"))
+            try:
+                case = g.case(stream)
+            except Exception:  # noqa: BLE001 -- generator problem, not the subject
+                continue
+            if len(case["files"]) != 1 or case.get("charset", "bk") != "bk":
+                continue
+            fs = {k: v for k, v in case.get("fs", {}).items() if isinstance(v, (str, bytes))}
+            cases.append(("c08-" + stream, case["files"][0][0], case["files"][0][1], fs))
     return cases
 
 
@@ -163,7 +178,12 @@ def explore_pa(rep, tier, seed, only=None):
                 want = f.read()
             if want[4:] != bytes.fromhex(o["code"]) or int.from_bytes(want[0:2], "little") != o["base"]:
                 rep.violate("pa-corpus-outbin:" + origin, "the implementation's image differs from the committed out.bin", {"files": [[filename, ""]]})
-        conv, entries = convert_recording(filename, text, fs)
+        try:
+            conv, entries = convert_recording(filename, text, fs)
+        except Exception as ex:  # noqa: BLE001 -- ast2coq itself failed (e.g. UnicodeDecodeError on an included file that is not UTF-8)
+            rep.count("PA:ast2coq-exception:" + type(ex).__name__)
+            stats["ast2coq_exceptions"] = stats.get("ast2coq_exceptions", 0) + 1
+            continue
         terms.append(case_term(filename, text, entries, conv, r_corr.obs_term(o)))
         refs.append((ci, conv.term is not None, o))
     stats["impl_wall_s"] = round(time.time() - t0, 1)
@@ -187,7 +207,16 @@ def explore_pa(rep, tier, seed, only=None):
         index.append(cur_i)
     codes = [None] * len(terms)
     if shards:
-        res = C.run_case_files(PID, REQUIRES, PRELUDE, shards, judge_expr="map judge_pa cases", cases_type="list pa_case", timeout=1500)
+        res = None
+        for attempt in range(3):
+            try:
+                res = C.run_case_files(PID, REQUIRES, PRELUDE, shards, judge_expr="map judge_pa cases", cases_type="list pa_case", timeout=1500)
+                break
+            except RuntimeError as ex:
+                # another agent rebuilt a library under us (shared coq/ tree): rebuild ours and try again
+                if "inconsistent assumptions" not in str(ex) or attempt == 2:
+                    raise
+                C.build([], ["Run/PARun.v"])
         for ix, r in zip(index, res):
             for k, v in zip(ix, r):
                 codes[k] = v
@@ -233,6 +262,10 @@ def main():
     ap.add_argument("--only", default=None)
     a = ap.parse_args()
     rep = C.Report("PA", a.tier, a.seed)
+    br = C.build([], ["Run/PARun.v"])
+    if not br.make_ok:
+        print("build failed:", br.make_failed, br.make_log[-800:])
+        return 2
     st = explore_pa(rep, a.tier, a.seed, only=a.only)
     for d in rep.disagreements[:20]:
         print("DISAGREE", d["what"], repr(d["input"])[:300], "|", d.get("model"), "|", d.get("impl"))
